@@ -33,7 +33,10 @@ Definition st_safe (st : kstate) : Prop := all_safe (writes st) = true /\ all_sa
 Lemma step_safe st o : st_safe st -> st_safe (fst (step st o)).
 Proof.
   intros [W O]. unfold st_safe.
-  destruct o as [a|a|k|r|r|r]; cbn [step].
+  destruct o as [a|a|k|r|r|r|k acc|r wk]; cbn [step].
+  8: { cbn [fst writes outs]. rewrite ?app_nil_r, ?W, ?O. split; reflexivity. }
+  7: { destruct acc; cbn [fst writes outs]; rewrite ?all_safe_app, ?app_nil_r, ?W, ?O; cbn [all_safe forallb];
+       rewrite ?sval_safe by apply odd_dk; split; reflexivity. }
   - cbn [fst writes outs]. rewrite !all_safe_app, W, O. cbn [all_safe forallb].
     rewrite sval_safe by apply odd_dk. rewrite id_term_safe. split; reflexivity.
   - destruct a; cbn [fst writes outs]; rewrite !all_safe_app, W, O; cbn [all_safe forallb];
@@ -74,7 +77,10 @@ Proof.
              (forall x, In x w -> is_sval x) ->
              In v (writes st ++ w) -> is_sval v).
   { intros w Hw I'. apply in_app_or in I'. destruct I' as [I'|I']; [apply H | apply Hw]; exact I'. }
-  destruct o as [a|a|k|r|r|r]; cbn [step] in I.
+  destruct o as [a|a|k|r|r|r|k acc|r wk]; cbn [step] in I.
+  8: { cbn [fst writes] in I. eapply G; [|exact I]. intros x []. }
+  7: { destruct acc; cbn [fst writes] in I; (eapply G; [|exact I]); intros x Hx; cbn in Hx; try contradiction;
+       destruct Hx as [<-|[]]; eexists _, _; reflexivity. }
   - cbn [fst writes] in I. eapply G; [|exact I]. intros x [<-|[]]. eexists _, _; reflexivity.
   - destruct a; cbn [fst writes] in I; (eapply G; [|exact I]); intros x [<-|[]];
       eexists _, _; reflexivity.
